@@ -46,7 +46,13 @@ pub struct Create {
     /// Number of threads.
     ///
     /// Multi-threading currently only affects reading and parsing BGZF compressed input.
-    #[arg(short = 't', long, default_value_t = NonZeroUsize::new(4).unwrap(), value_name = "INT")]
+    #[arg(
+        short = 't',
+        long,
+        default_value_t = NonZeroUsize::new(4).unwrap(),
+        value_parser = parse_threads,
+        value_name = "INT"
+    )]
     threads: NonZeroUsize,
 }
 
@@ -132,6 +138,22 @@ impl From<Project> for site::reader::builder::Project {
             (None, Some(shape)) => site::reader::builder::Project::Shape(Shape::from(shape)),
             _ => unreachable!("checked by clap"),
         }
+    }
+}
+
+/// The maximum number of threads that may be requested.
+///
+/// Each thread is a decompression worker; asking for more than the operating system can provide
+/// would otherwise abort when spawning them.
+const MAX_THREADS: usize = 1024;
+
+fn parse_threads(s: &str) -> Result<NonZeroUsize, String> {
+    let threads = s.parse::<NonZeroUsize>().map_err(|e| e.to_string())?;
+
+    if threads.get() <= MAX_THREADS {
+        Ok(threads)
+    } else {
+        Err(format!("at most {MAX_THREADS} threads are supported"))
     }
 }
 
